@@ -70,6 +70,8 @@ def run(pid, mod, rep, base_programs, only=None):
             continue
         scratch = Report(pid, 'thorough', rep.level, 'selftest')
         try:
+            from . import templates
+            templates.PROG[0] = prog
             mod.check(scratch, prog, 'selftest')
         except compdb.AnalysisBroken as e:
             scratch.unresolved('analysis', str(e))
